@@ -84,13 +84,16 @@ pub trait WrappedFarmTokenMerge:
 
         let wrapped_lp_token_mapper = self.wrapped_lp_token();
         let wrapped_farm_token_mapper = self.wrapped_farm_token();
-        merge_wrapped_farm_tokens(
+        let (merged_token, boosted_rewards) = merge_wrapped_farm_tokens(
             caller,
             factory_address,
             farm_address,
             &wrapped_lp_token_mapper,
             &wrapped_farm_token_mapper,
             wrapped_farm_tokens,
-        )
+        );
+        self.send_payment_non_zero(caller, &boosted_rewards);
+
+        merged_token
     }
 }
